@@ -57,7 +57,10 @@ MUTANTS += [
 MUTANTS += [
     # ---- C03
     M("c03-no-tuple-branch", "C03", "_box: mixed tuples go by reference as a whole", (P, "        if type(obj) is tuple:\n            return consts.LABEL_TUPLE, tuple(self._box(item) for item in obj)\n        elif", "        if False:\n            pass\n        elif")),
-    M("c03-no-proxy-cache", "C03,C10", "proxy cache not consulted", (P, "            if id_pack in self._proxy_cache:", "            if False and id_pack in self._proxy_cache:")),
+    M("c03-no-proxy-cache", "EQUIVALENT", "(equivalent since c61f145: the cache is looked at again after the proxy was built, which hands out the live proxy and counts the receipt on it - only slower) proxy cache not consulted first", (P, "            if id_pack in self._proxy_cache:", "            if False and id_pack in self._proxy_cache:")),
+    M("c03-no-proxy-cache-at-all", "C03,C10", "proxy cache consulted neither before nor after building the proxy",
+      (P, "            if id_pack in self._proxy_cache:", "            if False and id_pack in self._proxy_cache:"),
+      (P, "                cached = self._proxy_cache.get(id_pack)\n", "                cached = None\n")),
     M("c03-netref-rebox", "C03", "own netref boxed as a new remote ref (echo gives proxy of proxy)", (P, "        elif isinstance(obj, netref.BaseNetref) and obj.____conn__ is self:", "        elif isinstance(obj, netref.BaseNetref) and obj.____conn__ is self and obj.____id_pack__[2] % 5:")),
     M("c03-bool-as-int", "C03,C04,C19", "bool dumped through the int path when inside tuples", (B, "@register(_dump_registry, bool)\ndef _dump_bool(obj, stream):\n    if obj:", "@register(_dump_registry, bool)\ndef _dump_bool(obj, stream):\n    if len(stream) > 3:\n        stream.append(IMM_INTS[int(obj)])\n    elif obj:")),
     M("c03-slice-dumpable", "C03,C04", "dumpable ignores slice.step", (B, "return dumpable(obj.start) and dumpable(obj.stop) and dumpable(obj.step)", "return dumpable(obj.start) and dumpable(obj.stop)")),
